@@ -6,6 +6,7 @@
    exactly the value the Go specification defines (GoInt.bin), for ALL operand
    values of the kind; a division or remainder by zero is a run-time panic in
    both.  Only statements, `exact` and Print Assumptions live here. *)
+From Verif Require Import Bytes InitOrderM InitOrder_proofs.
 From Verif Require Import GoInt Facts_alu AluM Alu_proofs.
 Open Scope Z_scope.
 
@@ -75,3 +76,22 @@ Example C01_alu_example :
   vm_binop Shr gen_kind_Int16 (-32768) 3 0 = Some (Some (-4096)) /\
   vm_binop Rem gen_kind_Int32 7 0 0 = Some None.
 Proof. exact alu_example. Qed.
+
+(* ---- package-level initialisation order ---- *)
+
+(* full statement: Scriggo's order of variable initialisation is Go's *)
+Definition C01_init_order_statement : Prop := forall p : pkg, well_named p -> go_order p = sc_order p.
+
+(* it is false: a variable whose initialiser reaches another variable only
+   through a function is initialised too early (known finding
+   init-order-through-function) *)
+Theorem C01_init_order_refuted : exists p, sc_order p <> go_order p /\ sc_order p = [1; 2]%N /\ go_order p = [2; 1]%N.
+Proof. exists witness. destruct init_order_refuted as [H1 H2]. rewrite H1, H2. repeat split. discriminate. Qed.
+
+(* proved part: the orders agree whenever no function reached from an
+   initialiser refers, even indirectly, to a package-level variable *)
+Theorem C01_init_order_partial : forall p, well_named p ->
+  (forall v f, In v (vars p) -> In f (filter (is_func p) (snd v)) -> fdeps p (length (funcs p)) f = []) ->
+  go_order p = sc_order p.
+Proof. exact init_order_agree. Qed.
+Print Assumptions C01_init_order_partial.
